@@ -427,6 +427,11 @@ func (w *world) exec(o Op) (tok, item string) {
 		w.subs[o.A[0]] = true
 		return fmt.Sprintf("ia:%s:%s:%s:%s", hx(a.Id), hx(o.A[0]), hx(pid), c.B(o.B)), "-"
 	case "boot", "rs":
+		// a start on a database without provisioners runs the first-start migration (creates a
+		// provisioner and a super admin, prompts for a password): not modelled, not generated
+		if ps, _ := w.inner.GetProvisioners(ctx); len(ps) == 0 {
+			return "", ""
+		}
 		var a *authority.Authority
 		run(func() { a, err = w.start() })
 		if err == nil && !crashed {
